@@ -2,26 +2,21 @@ package main
 
 import (
 	"fmt"
-	"strings"
+	"os"
 
-	kvql "github.com/c4pt0r/kvql"
 	"kvqlverif/drive"
 	"kvqlverif/refstore"
 )
 
 func main() {
-	ps := []refstore.Pair{{K: "a", V: "1"}}
-	for _, q := range []string{"\n  select * where key = 1", "\t select * where key = 1", "\r\n select * where val = 1", " \t  where key ^= ", "\n\twhere key = 'a' & value + 1"} {
-		st := refstore.New(ps)
-		o := drive.Run(q, st, drive.Mode{Size: 3, Cache: true})
-		err := o.Err()
-		pos, kind, _ := drive.ErrPos(err)
-		texts, pan, _ := drive.Render(err, q, []int{0})
-		fmt.Printf("%q status=%s pos=%d kind=%s pan=%q\n%s\n", q, o.Status(), pos, kind, pan, strings.Join(texts, "\n"))
-		l := kvql.NewLexer(q)
-		for _, t := range l.Split() {
-			fmt.Printf("  tok %q@%d", t.Data, t.Pos)
+	ps := []refstore.Pair{{K: "00", V: "a"}, {K: "01", V: "c"}, {K: "a00", V: "b"}, {K: "a01", V: "B"}, {K: "a02", V: "b"}}
+	for _, q := range os.Args[1:] {
+		for _, b := range []bool{false, true} {
+			for _, cache := range []bool{false, true} {
+				st := refstore.New(ps)
+				o := drive.Run(q, st, drive.Mode{Batch: b, Size: 1, Cache: cache})
+				fmt.Printf("batch=%v cache=%v status=%s rows=%v err=%v\n", b, cache, o.Status(), o.Rows, o.Err())
+			}
 		}
-		fmt.Println()
 	}
 }
